@@ -720,8 +720,10 @@ func togoExec(toks []string) string {
 
 func togoOnce(mode string, r *togoRoot, term []string) (ans string) {
 	p := &termParser{toks: term, recs: map[int]*zygo.SexpHash{}}
-	var rec zygo.Sexp
-	quiet(func() { rec = p.term() })
+	rec, failed := buildTerm(p)
+	if failed {
+		return "err" // the script cannot even build the record (MakeHash panics for its type)
+	}
 	if p.err != "" || p.pos != len(term) {
 		return "bad-term"
 	}
